@@ -16,7 +16,7 @@ CHECK = {
         dict(MO, fn=P + "vC07_lookup"),
         dict(MO, fn=P + "vC07_failure", cases={"siblings": [0, 1, 2]}),
     ],
-    "opts": {"unwind": 48, "birth_guard_stores": True, "equalfold_ascii": True, "feas_from_iter": 1000, "substitute": SUB, "go_inline": True, "select_precise": True},
+    "opts": {"unwind": 10, "birth_guard_stores": True, "equalfold_ascii": True, "feas_from_iter": 1000, "substitute": SUB, "go_inline": True, "select_precise": True},
     "stop": list(SUB.keys()),
     "descend_extra": ["golang.org/x/sync/errgroup"],
     "explanation": "TODO",
